@@ -78,11 +78,11 @@ type harnessFile struct {
 }
 
 type annotations struct {
-	Bounds   map[string]string
-	Outside  []string
-	Assume   []string
-	Stubs    []string
-	Opts     map[string]string
+	Bounds    map[string]string
+	Outside   []string
+	Assume    []string
+	Stubs     []string
+	Opts      map[string]string
 	Inductive map[string]bool
 }
 
@@ -455,8 +455,50 @@ func runCheck(prop, tier string, verbose, keep bool, only string) int {
 		}
 	}
 	verdictOf := map[*symex.VC]symex.Verdict{}
+	vcUnsat, vcSat, vcUnknown, vcAbstracted := 0, 0, 0, 0
 	for _, v := range allVerdicts {
 		verdictOf[v.VC] = v
+		switch v.Res {
+		case smt.Unsat:
+			vcUnsat++
+		case smt.Sat:
+			vcSat++
+		default:
+			vcUnknown++
+		}
+		if v.Abstracted > 0 {
+			vcAbstracted++
+		}
+	}
+	// presence of every known finding: ¬O ∧ K on each candidate path, all in one parallel batch
+	knownPresent := map[string]bool{}
+	{
+		var kvcs []*symex.VC
+		kterm := map[*symex.VC]*smt.Term{}
+		kkey := map[*symex.VC]string{}
+		for _, f := range findings {
+			if f.Status != "known" {
+				continue
+			}
+			for _, vc := range allVCs {
+				if vc.Harness != f.Harness || vc.Label != f.Label {
+					continue
+				}
+				t, ok, _ := findingTerm(f, vc)
+				if !ok {
+					continue
+				}
+				c := *vc // a copy, so that the same VC can be asked under several findings
+				kvcs = append(kvcs, &c)
+				kterm[&c] = t
+				kkey[&c] = f.Key
+			}
+		}
+		for _, v := range symex.Discharge(kvcs, func(vc *symex.VC) []*smt.Term { return []*smt.Term{kterm[vc]} }, opts) {
+			if v.Res == smt.Sat {
+				knownPresent[kkey[v.VC]] = true
+			}
+		}
 	}
 	for _, hr := range runs {
 		h, res := hr.fn, hr.res
@@ -551,24 +593,12 @@ func runCheck(prop, tier string, verbose, keep bool, only string) int {
 			default:
 				s.Result = "unsat"
 			}
-			// known findings still present?
+			// known findings still present? (all candidate paths of all entries in one parallel batch)
 			for _, f := range findings {
 				if f.Harness != res.Name || f.Label != label || f.Status != "known" {
 					continue
 				}
-				seen := false
-				for _, vc := range byLabel[label] {
-					t, ok, _ := findingTerm(f, vc)
-					if !ok {
-						continue
-					}
-					kv := symex.Discharge([]*symex.VC{vc}, func(*symex.VC) []*smt.Term { return []*smt.Term{t} }, opts)
-					s.Queries++
-					if kv[0].Res == smt.Sat {
-						seen = true
-						break
-					}
-				}
+				seen := knownPresent[f.Key]
 				if seen {
 					fmt.Printf("KNOWN-FINDING: property=%s %s [%s]\n", prop, f.What, f.Key)
 					knownSeen = append(knownSeen, f.Key)
@@ -607,29 +637,34 @@ func runCheck(prop, tier string, verbose, keep bool, only string) int {
 	ev := map[string]interface{}{
 		"property_id": prop, "tier": tier, "seed": 0, "level": "model_checking",
 		"coverage": map[string]interface{}{
-			"states":                        max(totalPaths, 1),
-			"transitions":                   max(eng.Instrs, 1),
-			"traces_validated_against_impl": validated,
-			"samples":                       samples,
-			"functions_encoded":             symex.SortedKeys(eng.Funcs),
-			"stubs":                         append(symex.SortedKeys(eng.Stubs), ann.Stubs...),
-			"bounds":                        ann.Bounds,
-			"outside_bounds":                ann.Outside,
-			"queries":                       smt.StatQueries,
-			"unsat":                         smt.StatByRes[smt.Unsat],
-			"sat":                           smt.StatByRes[smt.Sat],
-			"unknown":                       smt.StatByRes[smt.Unknown] + smt.StatByRes[smt.Error],
-			"prune_queries":                 eng.PruneQueries,
-			"path_merges":                   eng.Merges,
-			"solver_time_s":                 round2(smt.StatSeconds),
-			"solvers":                       symex.SortedKeys(smt.StatSolvers),
-			"cross_checked":                 crossChecked,
-			"known_findings_seen":           knownSeen,
-			"kernel_lemmas":                 smt.Lemmas(),
-			"inconclusive":                  inconclusive,
-			"load_s":                        round2(loadS),
-			"notes":                         notes,
-			"explanation":                   "bounded symbolic execution of the real go/ssa code; states = symbolic paths completed, transitions = SSA instructions interpreted, sat counts include reachability witnesses and translator-validation models",
+			"states":                         max(totalPaths, 1),
+			"transitions":                    max(eng.Instrs, 1),
+			"traces_validated_against_impl":  validated,
+			"samples":                        samples,
+			"functions_encoded":              symex.SortedKeys(eng.Funcs),
+			"stubs":                          append(symex.SortedKeys(eng.Stubs), ann.Stubs...),
+			"bounds":                         ann.Bounds,
+			"outside_bounds":                 ann.Outside,
+			"verification_conditions":        len(allVCs),
+			"vc_unsat":                       vcUnsat,
+			"vc_sat":                         vcSat,
+			"vc_unknown":                     vcUnknown,
+			"vc_decided_under_kernel_lemmas": vcAbstracted,
+			"queries":                        smt.StatQueries,
+			"unsat":                          smt.StatByRes[smt.Unsat],
+			"sat":                            smt.StatByRes[smt.Sat],
+			"unknown":                        smt.StatByRes[smt.Unknown] + smt.StatByRes[smt.Error],
+			"prune_queries":                  eng.PruneQueries,
+			"path_merges":                    eng.Merges,
+			"solver_time_s":                  round2(smt.StatSeconds),
+			"solvers":                        symex.SortedKeys(smt.StatSolvers),
+			"cross_checked":                  crossChecked,
+			"known_findings_seen":            knownSeen,
+			"kernel_lemmas":                  smt.Lemmas(),
+			"inconclusive":                   inconclusive,
+			"load_s":                         round2(loadS),
+			"notes":                          notes,
+			"explanation":                    "bounded symbolic execution of the real go/ssa code; states = symbolic paths completed, transitions = SSA instructions interpreted; vc_* count verification conditions by final verdict; queries/unsat/sat/unknown count individual solver calls (portfolio slices, reachability witnesses, validation inputs and lemma cases included)",
 		},
 		"assumptions": append([]string{"GOARCH=amd64 float-to-int conversion (out-of-range and NaN give MinInt64)", "encoding regenerated from /repo working tree on this run"}, ann.Assume...),
 		"wall_s":      round2(time.Since(t0).Seconds()),
@@ -704,7 +739,6 @@ func reachableAll(labels []string, byLabel map[string][]*symex.VC, opts symex.Di
 	}
 	return out
 }
-
 
 func sanitize(s string) string {
 	return regexp.MustCompile(`[^A-Za-z0-9_.-]`).ReplaceAllString(s, "_")
